@@ -209,7 +209,12 @@ def rule_E2_pipeline(tree: Tree) -> RuleResult:
     r.instances += 1
     calls = _calls_in(g.node, "get_key_from_line")
     in_loop = any(any(isinstance(a, (ast.For, ast.ListComp, ast.GeneratorExp)) for a in ancestors(c)) for c in calls)
-    r.ob(bool(calls) and in_loop, Finding("E2b", "keylog_reader:get_keys_from_string:per-line", "every line must be handed to get_key_from_line", m.line(g.node)))
+    line_loop = next((a for c in calls for a in ancestors(c) if isinstance(a, ast.For)), None)
+    early = [src(x) for s2 in (line_loop.body if line_loop is not None else []) for x in ast.walk(s2) if isinstance(x, (ast.Break, ast.Return))]
+    filt = [src(x.test, 60) for s2 in (line_loop.body if line_loop is not None else []) for x in ast.walk(s2) if isinstance(x, ast.If) and any(isinstance(y, ast.Continue) for y in ast.walk(x))]
+    r.ob(bool(calls) and in_loop and not early, Finding("E2b", "keylog_reader:get_keys_from_string:per-line",
+                                                        f"every line must be handed to get_key_from_line: the line loop leaves early with {early} — blank / comment / unrelated lines may precede the "
+                                                        f"entries a connection needs", m.line(g.node)))
     # Key constructed at exactly one site, inside keylog_reader
     r.instances += 1
     KeyCls = tree.cls("keylog_reader", "Key")
